@@ -29,7 +29,7 @@ pub enum Step {
 }
 
 impl Step {
-    fn person(&self) -> usize {
+    pub fn person(&self) -> usize {
         (match self {
             Step::Register { p, .. }
             | Step::Login { p, .. }
@@ -69,7 +69,7 @@ struct Account {
 static RUN: AtomicU64 = AtomicU64::new(0);
 static SALTS: Mutex<Option<HashSet<String>>> = Mutex::new(None);
 
-const PROBLEM_NAMES: [&str; 3] = ["pa", "pb", "pc"];
+pub const PROBLEM_NAMES: [&str; 3] = ["pa", "pb", "pc"];
 
 struct World<'a> {
     pre: String,
@@ -596,7 +596,7 @@ fn c17_check(c: &UserCase, st: &mut Stats) -> CheckResult {
     Ok(Outcome::Ok)
 }
 
-fn step_strategy() -> BoxedStrategy<Step> {
+pub fn step_strategy() -> BoxedStrategy<Step> {
     let p = || 0u8..3;
     let u = || 0u8..3;
     let w = || prop_oneof![5 => 0u8..2, 1 => Just(2u8), 1 => Just(3u8)];
@@ -650,6 +650,7 @@ pub fn c17(tier: Tier) -> PropSpec {
                     .boxed()
             },
             c17_check,
-        )],
+        ),
+        crate::props::races::paused_part(tier)],
     }
 }
